@@ -11,9 +11,18 @@ use crate::subscriptions::{
 use crate::topics::{RemoveSubscriptionError, Topic, TopicMessage, TopicName};
 use futures::future::Shared;
 use futures::FutureExt;
+#[cfg(deltio_verif)]
+use crate::verif::sync::Mutex;
+#[cfg(not(deltio_verif))]
 use parking_lot::Mutex;
 use std::sync::{Arc, Weak};
+#[cfg(not(deltio_verif))]
 use tokio::sync::{mpsc, oneshot, Notify};
+#[cfg(deltio_verif)]
+use {
+    crate::verif::mpsc,
+    tokio::sync::{oneshot, Notify},
+};
 use tokio::time::Instant;
 
 /// The max amount of messages that can be pulled.
@@ -113,6 +122,8 @@ impl SubscriptionActor {
             deleted: false,
         };
 
+        #[cfg(deltio_verif)]
+        crate::verif::label(|| format!("sub-actor:{}", actor.info.name));
         tokio::spawn(async move {
             let deleted = actor.observer.deleted();
             let poll = async {
@@ -139,6 +150,8 @@ impl SubscriptionActor {
 
     /// Receives a request.
     async fn receive(&mut self, request: SubscriptionRequest) {
+        #[cfg(deltio_verif)]
+        crate::verif::point("subscription.receive");
         match request {
             SubscriptionRequest::PostMessages { messages } => {
                 self.post_messages(messages);
@@ -268,6 +281,8 @@ impl SubscriptionActor {
         }
 
         self.deleted = true;
+        #[cfg(deltio_verif)]
+        crate::verif::point("subscription.delete.marked");
 
         // If the topic is still around, remove ourselves from it's list of subscriptions.
         if let Some(topic) = self.topic.upgrade() {
@@ -279,8 +294,14 @@ impl SubscriptionActor {
                 })?;
         }
 
+        #[cfg(deltio_verif)]
+        crate::verif::point("subscription.delete.detached");
         self.delegate.delete(&self.info.name);
+        #[cfg(deltio_verif)]
+        crate::verif::point("subscription.delete.unregistered");
         self.observer.notify_deleted();
+        #[cfg(deltio_verif)]
+        crate::verif::point("subscription.delete.notified");
         self.outstanding.clear();
         self.backlog.clear();
 
@@ -362,6 +383,8 @@ impl SubscriptionObserver {
         // If we were able to take out the sender, send the notification.
         if let Some(sender) = taken {
             let _ = sender.send(());
+            #[cfg(deltio_verif)]
+            crate::verif::point("observer.deleted.sent");
             // Also notify everyone waiting for messages.
             self.notify_messages_available.notify_waiters();
         }
